@@ -27,7 +27,7 @@ def tasks(tier, seed):
 
 def menu(seed):
     R = explore.roles(seed)
-    return [[R['R']], [R['B']], [R['W']], [R['G']], [R['R'], R['B']], [R['R'], R['W']], [R['B'], R['W']], [R['R'], R['R']], []]
+    return [[R['R']], [R['B']], [R['W']], [R['G']], [R['R'], R['B']], [R['R'], R['W']], [R['B'], R['W']], [R['R'], R['R']], [], ['raw:;'], [R['K']], [R['F']]]
 
 
 def check_find(v, T, L, S, i, j, rev, res):
@@ -41,9 +41,11 @@ def check_find(v, T, L, S, i, j, rev, res):
     s, e = si, ei
     if e < s:
         return None if res == (None, None) else ('find-inverted', 'inverted range must give (None, None)')
-    if not S:
+    from ..hist import expand_codes as _ec
+    if not _ec(S):
         return None if res == (s, e) else ('find-empty-settings', 'empty settings must give the normalised range (%d, %d)' % (s, e))
-    need = set(S)
+    from ..hist import expand_codes
+    need = set(expand_codes(S))
 
     def has(p):
         return 0 <= p < L and need <= T[p]
@@ -122,7 +124,26 @@ def check_state(h, v, acc):
                         acc.outcome((res, rev))
                         if res != (None, None) and S:
                             acc.nontriv(hash((model.chash(tuple(cells)), tuple(S), i, j, rev)))
-    # AnsiStr delegates
+    # AnsiStr delegates: the whole bounds grid for two selections (a forwarding slip shows only for particular bounds)
+    for S in (menu(acc.seed)[0], []):
+        arg = mk_settings(S)
+        for rev in (False, True):
+            for i in bounds:
+                for j in bounds:
+                    acc.transitions += 1
+                    case = {'hist': h, 'op': ['find_str_grid', S, i, j, rev]}
+                    try:
+                        if i is None:
+                            a = v.find_settings(arg, end=j, reverse=rev) if j is not None else v.find_settings(arg, reverse=rev)
+                            b = vs.find_settings(arg, end=j, reverse=rev) if j is not None else vs.find_settings(arg, reverse=rev)
+                        else:
+                            a, b = v.find_settings(arg, i, j, rev), vs.find_settings(arg, i, j, rev)
+                        if a != b:
+                            bad.append(('find-ansistr', case, 'AnsiStr.find_settings(%r,%r,%r,%r) = %r, AnsiString gives %r' % (S, i, j, rev, b, a)))
+                        else:
+                            acc.validated += 1
+                    except Exception as ex:  # noqa
+                        bad.append(('find-ansistr', case, 'find_settings(%r,%r,%r,%r): %s: %s' % (S, i, j, rev, type(ex).__name__, ex)))
     for S in menu(acc.seed)[:3]:
         acc.transitions += 1
         if vs.find_settings(mk_settings(S), 0, None) != v.find_settings(mk_settings(S), 0, None):
